@@ -206,19 +206,6 @@ def py_walk(kind, order, first, last):
     return None
 
 
-def classify(kind, case, a, b):
-    """name the known deviation class of a mismatch, if it is one"""
-    if kind.startswith('uset'):
-        ops = [s.strip() for s in case.split(';')][1:]
-        ta = a.split(' | ')[0].split(' '); tb = b.split(' | ')[0].split(' ')
-        for i, (x, y) in enumerate(zip(ta, tb)):
-            if x != y:
-                if i < len(ops) and ops[i].startswith('cmp') and x == '10' and y == '01':
-                    return 'unordered-eq-uses-key-eq'
-                return None
-    return None
-
-
 # ---------------------------------------------------------------------------------------------- build
 def tree_hash(ctx):
     h = hashlib.sha256()
@@ -244,7 +231,7 @@ def build_harnesses(ctx):
             if os.path.exists(path) and os.path.exists(stamp) and open(stamp).read() == want:
                 continue
             if os.path.exists(stamp): os.remove(stamp)
-            jobs.append(('harness.cpp', name, ['-DIMPL_%s' % impl.upper(), '-DGROUP=%d' % g], want, stamp))
+            jobs.append(('harness.cpp', name, ['-DIMPL_%s' % impl.upper(), '-DGROUP=%d' % g] + ([] if san else ['-O0', '-g0']), want, stamp))
     if jobs:
         ctx.log('building %d harness executables' % len(jobs))
         res = ctx.cxx_many([(s, x, f) for (s, x, f, _, _) in jobs])
@@ -394,10 +381,9 @@ def report(ctx, bad, limit=3):
         if len(b) == 5:
             cse, a, s, m, why = b
             kind = cse.split(' ', 1)[0]
-            key = classify(kind, cse, a, s if a != s else (m or s))
             g = GROUP_OF.get(kind, 0)
             if ctx.violation(why, {'case': cse, 'momo': a, 'std': s, 'model': m,
-                                   'cmd': "echo '%s' | build/C06/h_momo_%d ; (same with h_std_%d, model_driver)" % (cse, g, g)}, found_input=True, key=key):
+                                   'cmd': "echo '%s' | build/C06/h_momo_%d ; (same with h_std_%d, model_driver)" % (cse, g, g)}, found_input=True):
                 n += 1
         else:
             cse, a, m, why = b
